@@ -434,7 +434,9 @@ def r15_4(ctx, rep):
     # ids from fetch_add(1)
     sub = [f for f in fx.fns.values() if f.get("impl_self") == LST and f.get("output") == LH and len(f.get("inputs", [])) == 3 and f["inputs"][1] == "std::string::String"]
     for f in sub:
-        eng4 = sym.Engine(fx, inline_only=set(getattr(fx, "new_helpers", ())))
+        # the registration (InnerListeners::subscribe_event) is followed into: the id may be allocated on either side of that call
+        reg = {g["id"] for g in fx.fns.values() if g.get("impl_self") == "listener::InnerListeners" and g["id"].split("::")[-1] == "subscribe_event"}
+        eng4 = sym.Engine(fx, inline_only=set(getattr(fx, "new_helpers", ())) | reg)
         for row in eng4.table(f["id"]):
             if row.exit != "return" or row.ret is None or row.ret[0] != "agg":
                 continue
@@ -451,9 +453,13 @@ def r15_4(ctx, rep):
                         ok = ok or bool(inc)
             rep.obligation(ok, "C15/R15.4/id-source", "listener ids come from %s" % sym.fmt(lid)[:60], where(f), sample="id = listener_idx.fetch_add(1)")
             sube = [e for e in row.calls() if e[1].endswith("InnerListeners::subscribe_event")]
-            if sube:
-                rep.obligation(T.resolve_locals(eng4, row.store, sube[0][2][2]) == lid, "C15/R15.4/id-registered", "the registered id differs from the handle's id", where(f),
-                               sample="same id registered and returned")
+            ins = [e for e in row.calls() if sym.strip_all_generics(e[1]).endswith("HashMap::insert")]
+            if ins:
+                rep.obligation(len(ins) == 1 and T.resolve_locals(eng4, row.store, ins[0][2][1]) == lid, "C15/R15.4/id-registered",
+                               "the registered id differs from the handle's id", where(f), sample="same id registered and returned")
+            elif sube:
+                rep.obligation(len(sube[0][2]) > 2 and T.resolve_locals(eng4, row.store, sube[0][2][2]) == lid, "C15/R15.4/id-registered",
+                               "the registered id differs from the handle's id", where(f), sample="same id registered and returned")
     rep.instance(n)
 
 
@@ -469,9 +475,12 @@ def r15_5(ctx, rep, roles):
     for cs in cg.callers_of(new["id"]):
         n += 1
         caller = fx.fns[cs.caller]
-        eng = sym.Engine(fx, no_inline={new["id"]}, inline_only=set(getattr(fx, "new_helpers", ())))
+        eng = sym.Engine(fx, no_inline={new["id"]}, inline_only=set(getattr(fx, "new_helpers", ())), summaries=sym.ENTRY_SUMMARIES)
         ok = False
-        for row in eng.table(cs.real_caller):
+        tabled = cs.real_caller
+        if fx.fns[tabled]["kind"] == "closure":
+            tabled = fx.root_fn(tabled)        # e.g. the closure of `entry(..).or_insert_with(|| NodeState::new(..))`: followed from its parent
+        for row in eng.table(tabled):
             for e in row.calls():
                 if e[1] == new["id"]:
                     ls = T.resolve_locals(eng, row.store, e[2][1])
